@@ -644,6 +644,76 @@ def _replace_in(st: ast.AST, field: str, old: ast.AST, new: ast.AST) -> None:
     _replace(getattr(st, field), old, new)
 
 
+def _count_args(call: ast.Call) -> tuple[ast.AST, ast.AST] | None:
+    """(start, step) of itertools.count(...)."""
+    if _dotted(call.func) not in ("itertools.count", "count"):
+        return None
+    kw = {k.arg: k.value for k in call.keywords}
+    start = call.args[0] if len(call.args) > 0 else kw.get("start", ast.Constant(0))
+    step = call.args[1] if len(call.args) > 1 else kw.get("step", ast.Constant(1))
+    return start, step
+
+
+def _desugar_count_zip(fn: ast.FunctionDef) -> int:
+    """`for off, (n, i, data) in zip(itertools.count(a, s), X.read_plan(...))` is the plan loop with `off = a + s*i`:
+    read_plan numbers its blocks 0, 1, 2, ... (C01), so a counter stepping alongside it is that index scaled."""
+    single: dict[str, ast.Assign] = {}
+    counts: dict[str, int] = {}
+    for n in ast.walk(fn):
+        if isinstance(n, ast.Assign) and len(n.targets) == 1 and isinstance(n.targets[0], ast.Name):
+            single[n.targets[0].id] = n
+            counts[n.targets[0].id] = counts.get(n.targets[0].id, 0) + 1
+    done = 0
+    for loop in [n for n in ast.walk(fn) if isinstance(n, ast.For)]:
+        it = loop.iter
+        if not (isinstance(it, ast.Call) and _dotted(it.func) == "zip" and len(it.args) == 2 and isinstance(loop.target, ast.Tuple) and len(loop.target.elts) == 2):
+            continue
+
+        def resolve(e):
+            if isinstance(e, ast.Name) and counts.get(e.id) == 1 and isinstance(single[e.id].value, ast.Call):
+                return single[e.id].value, single[e.id]
+            return (e, None) if isinstance(e, ast.Call) else (None, None)
+        (c_call, c_def), (p_call, p_def) = resolve(it.args[0]), resolve(it.args[1])
+        if c_call is None or p_call is None or _count_args(c_call) is None or not (_dotted(p_call.func) or "").endswith(".read_plan"):
+            continue
+        off_t, plan_t = loop.target.elts
+        if not (isinstance(off_t, ast.Name) and isinstance(plan_t, ast.Tuple) and len(plan_t.elts) == 3 and all(isinstance(x, ast.Name) for x in plan_t.elts)):
+            continue
+        # the temporaries must be used by this loop only
+        uses = lambda nm: sum(1 for n in ast.walk(fn) if isinstance(n, ast.Name) and n.id == nm and isinstance(n.ctx, ast.Load))  # noqa: E731
+        if any(d is not None and uses(d.targets[0].id) != 1 for d in (c_def, p_def)):
+            continue
+        start, step = _count_args(c_call)
+        idx = plan_t.elts[1]
+        if idx.id.startswith("_"):
+            idx = ast.Name(id="plan_index__", ctx=ast.Store())
+            plan_t.elts[1] = idx
+        bind = ast.Assign(targets=[ast.Name(id=off_t.id, ctx=ast.Store())],
+                          value=ast.BinOp(left=copy.deepcopy(start), op=ast.Add(),
+                                          right=ast.BinOp(left=ast.Name(id=idx.id, ctx=ast.Load()), op=ast.Mult(), right=copy.deepcopy(step))))
+        loop.target = plan_t
+        loop.iter = p_call
+        loop.body = [ast.copy_location(bind, loop)] + loop.body
+        for d in (c_def, p_def):
+            if d is not None:
+                _remove_stmt(fn, d)
+        done += 1
+    if done:
+        ast.fix_missing_locations(fn)
+    return done
+
+
+def _remove_stmt(root: ast.AST, st: ast.stmt) -> None:
+    for n in ast.walk(root):
+        for field in ("body", "orelse", "finalbody"):
+            lst = getattr(n, field, None)
+            if isinstance(lst, list) and st in lst:
+                lst.remove(st)
+                if not lst and field == "body":
+                    lst.append(ast.Pass())
+                return
+
+
 def apply(tree: ast.Module, module: str = "") -> list[str]:
     """Dissolve transparent helpers of `tree` into their callers (in place). -> names inlined (one per call site)."""
     if _has_walrus(tree):
@@ -657,6 +727,8 @@ def apply(tree: ast.Module, module: str = "") -> list[str]:
     for n in ast.walk(tree):
         if isinstance(n, ast.FunctionDef):
             aliases += _propagate_self_aliases(n)
+            if any(isinstance(c, ast.Call) and _dotted(c.func) in ("itertools.count", "count") for c in ast.walk(n)):
+                aliases += _desugar_count_zip(n)
     if aliases:
         ast.fix_missing_locations(tree)
     if inl.inlined:
